@@ -152,6 +152,24 @@ type harnessReport struct {
 	samples       []interp.PathSample
 }
 
+// memLimit: a third of physical memory, at least 4 GiB.
+func memLimit() int64 {
+	lim := int64(4 << 30)
+	if b, err := os.ReadFile("/proc/meminfo"); err == nil {
+		for _, ln := range strings.Split(string(b), "\n") {
+			if strings.HasPrefix(ln, "MemTotal:") {
+				f := strings.Fields(ln)
+				if len(f) >= 2 {
+					if kb, err := strconv.ParseInt(f[1], 10, 64); err == nil && kb*1024/3 > lim {
+						lim = kb * 1024 / 3
+					}
+				}
+			}
+		}
+	}
+	return lim
+}
+
 func main() {
 	prop := flag.String("p", "", "property id (C01..C19)")
 	tier := flag.String("tier", "quick", "quick|thorough")
@@ -181,6 +199,19 @@ func main() {
 		fatal("-p required")
 	}
 	debug.SetGCPercent(600)
+	// GC percent 600 trades memory for speed; the soft limit makes the collector
+	// work harder instead of letting a long thorough run be OOM-killed.
+	debug.SetMemoryLimit(memLimit())
+	if mp := os.Getenv("VCHECK_MEMPROFILE"); mp != "" {
+		go func() {
+			for {
+				time.Sleep(60 * time.Second)
+				f, _ := os.Create(mp)
+				pprof.WriteHeapProfile(f)
+				f.Close()
+			}
+		}()
+	}
 	if t := os.Getenv("VERIF_TIER"); t != "" && !isFlagSet("tier") {
 		*tier = t
 	}
